@@ -1,10 +1,6 @@
 // replay for property C09, harness construction::heuristics::insertions::verif_kani_proofs::c09_cost_algebra_1_2 (crate vrp-core, proof module insertions)
 // failed: assertion failed: sum.data.len() == n && diff.data.len() == n @ insertions_proofs.rs:108
 // run: /verif/check --replay /verif/replays/C09/c09_cost_algebra_1_2.rs
-/// Test generated for harness `construction::heuristics::insertions::verif_kani_proofs::c09_cost_algebra_1_2` 
-///
-/// Check for `assertion`: "assertion failed: sum.data.len() == n && diff.data.len() == n"
-
 #[test]
 fn kani_concrete_playback_c09_cost_algebra_1_2_9079384640070847339() {
     let concrete_vals: Vec<Vec<u8>> = vec![
